@@ -29,7 +29,7 @@ CHECKS = {
     "C03": ("model_checking",
             "In-check flag, checking pieces and game status are compared with InCheck/Checkers/Classify of the "
             "specification on every position reached by BFS from check-, castling-, promotion-, en-passant- and clock-rich "
-            "roots and on seeded walks; every moved board is compared with its twin rebuilt from text (legal moves, check, "
+            "roots (incl. checkmate and stalemate standing at half-move clock >= 100) and on seeded walks; every moved board is compared with its twin rebuilt from text (legal moves, check, "
             "status, hash, Display, both Debug forms, caches).", TECH, "5/C03", NOTE),
     "C04": ("model_checking",
             "The hash is specified as a function of the position (spec/Hash.tla over the key table exported from the "
@@ -66,7 +66,7 @@ CHECKS = {
             "attacking king at supporting distance; both colours) and BFS states of mate-rich roots; the engine searches "
             "each until its first pass is committed; spec/SearchTrace.tla recomputes MateMoves of layer R and demands a "
             "mating move with the mover's mate-in-one score when one exists and no mate-in-one score otherwise. Further "
-            "families emit only positions whose mate is a capture (attackers x defenders), whose mover is in check with one "
+            "families emit only positions whose mate is a capture (attackers x defenders, incl. the ones that leave two knights), whose mover is in check with one "
             "or two legal moves, whose mate is an under-promotion or a push-promotion beside a possible capture, or whose mating "
             "move is played at half-move clock 99; a battery family (back-rank exchanges) looks for mate-in-one scores "
             "reported for the first capture of a longer forced line.",
